@@ -12,7 +12,7 @@ Family `fs`: the real `cabextract` binary built from the tree, run in throw-away
 regular file created or changed inside dest/ must lie, physically, at the lexical path of a member's
 output name (so nothing was written through a symlink); `cabextract -l` must print exactly the names
 the model predicts (isunix from the model of unix_path_seperators)."""
-import hashlib, os, shutil, stat, subprocess
+import hashlib, os, re, shutil, stat, subprocess
 from concurrent.futures import ThreadPoolExecutor
 from lib import common as C, minicab
 from lib.pipeline import Finding, run_cases
@@ -39,6 +39,17 @@ RULE = ("prim.outname: member names up to 255 bytes (random bytes; separators/do
         "a separator, a '..' or the name of a pre-existing symlink; distinct by scenario text")
 
 FSROOT = os.path.join(C.BUILD, "fs")
+# The test root lies DEPTH directories below the per-scenario jail /verif/build/fs/<pid>-<n>: a cabextract whose `../`
+# replacement is broken climbs at most 85 levels with a 255-byte name, so it stays inside the jail, where the snapshot sees it.
+# Names that start with a separator always continue with the jail's own absolute path in the same separator style (contain()).
+DEPTH = 88
+
+def jail_of(idx): return os.path.join(FSROOT, f"{os.getpid()}-{idx}").encode()
+def root_of(idx): return jail_of(idx) + b"/j" * DEPTH
+def subst(b, root):
+    """@ROOT@ = absolute path of the test root, @ROOTB@ = the same written with backslashes"""
+    return b.replace(b"@ROOTB@", root.replace(b"/", b"\\")).replace(b"@ROOT@", root)
+def short(k): return k.replace(b"j/" * DEPTH, b"<root>/").replace(b"/j" * DEPTH, b"/<root>")
 STATS = {"prim_names": 0, "fs_scenarios": 0, "fs_with_links_outside": 0, "fs_with_dangling_final": 0, "fs_opts": {}, "fs_dmode": {},
          "fs_family": {}, "fs_listings_compared_with_model": 0, "fs_listings_isunix1": 0, "fs_listings_skipped_locale": 0, "fs_files_written_inside": 0, "fs_runs_nonzero_exit": 0}
 
@@ -202,10 +213,10 @@ def hostile_names(rng, links, lower):
     """a pool of member names for one scenario; @ROOT@ is replaced by the absolute test root"""
     sep = rng.choice([b"\\", b"\\", b"/"])
     other = b"/" if sep == b"\\" else b"\\"
-    pool = [b"..S..Soutside/escaped.txt".replace(b"S", sep), b"..Soutside" + sep + b"escaped.txt", b"@ROOT@/outside/abs.txt", b"S@ROOT@SoutsideSabs.txt".replace(b"S", sep),
+    pool = [b"..S..Soutside/escaped.txt".replace(b"S", sep), b"..Soutside" + sep + b"escaped.txt", b"@ROOT@/outside/abs.txt", b"@ROOTB@\\outside\\abs.txt", b"//@ROOT@/outside/abs2.txt", b"\\\\@ROOTB@\\outside\\abs2.txt", b"\xe0\x80\xaf@ROOT@/outside/ovlabs.txt",
             b"subS..S..SoutsideSescaped.txt".replace(b"S", sep), b"..OoutsideOescaped.txt".replace(b"O", other), b"subS..O..OoutsideSsecret.txt".replace(b"S", sep).replace(b"O", other),
             b"...S...SoutsideSx".replace(b"S", sep), b"..", b"subS..".replace(b"S", sep), b".", b"subS.Sok.txt".replace(b"S", sep), b"plain.txt", b"subSnew.txt".replace(b"S", sep),
-            b"newdirSdeepSf.txt".replace(b"S", sep), b"file.txt", sep * 3 + b"outside" + sep + b"x", b"\xe0\x80\xae\xe0\x80\xae" + sep + b"outside" + sep + b"ovl.txt",
+            b"newdirSdeepSf.txt".replace(b"S", sep), b"file.txt", sep * 3 + (b"@ROOT@" if sep == b"/" else b"@ROOTB@") + sep + b"outside" + sep + b"x", b"\xe0\x80\xae\xe0\x80\xae" + sep + b"outside" + sep + b"ovl.txt",
             b"\xf0\x80\x80\xae." + b"\xe0\x80\xaf" + b"outside/ovl2.txt", b"\xc0\xae\xc0\xae" + sep + b"outside" + sep + b"c0.txt", b"\xff\xfe" + sep + b"..\xff" + sep + b"x",
             (b"a" + sep) * 100 + b"f", b"L" * 255, b"d" * 200 + sep + b"e" * 54, b"..S".replace(b"S", sep) * 40 + b"outside" + sep + b"far.txt",
             b"+AC4ALgAv-outside+AC8-utf7.txt", b"\xc9t\xe9" + sep + b"\xd1.txt"]
@@ -216,10 +227,30 @@ def hostile_names(rng, links, lower):
         pool += [ln + sep + b"evil.txt", ln + sep + b"keep.txt", ln + sep + b"new" + sep + b"deep.txt", ln + sep + b".." + sep + b"outside" + sep + b"viaparent.txt"] * (2 if isdir else 1)
     nm = rng.choice(pool)
     if lower and rng.random() < 0.5:
-        nm = b"@ROOT@".join(p.upper() for p in nm.split(b"@ROOT@"))
+        nm = re.sub(rb"@ROOTB?@|[^@]+|@", lambda m: m.group(0) if m.group(0).startswith(b"@ROOT") else m.group(0).upper(), nm)
     if rng.random() < 0.1:
         nm = nm + rng.choice([b"", sep, b".", b" ", sep + b".."])
     return nm[:255]
+
+LEAD_ATOMS = [(b"/", 0), (b"\\", 1), (b"\xe0\x80\xaf", 0), (b"\xf0\x80\x80\xaf", 0), (b"\xc0\xaf", 0), (b"\xe0\x81\x9c", 1), (b"\xf0\x80\x81\x9c", 1), (b"\xc1\x9c", 1)]
+
+def contain(nm, allow_abs=True):
+    """fs family only.  A name may start with separators (plain or overlong-encoded) only if they are all of one kind and are
+    followed by the absolute path of the test root written with that kind; otherwise the leading separators are dropped.
+    So even a cabextract that no longer strips leading slashes writes inside the throw-away jail."""
+    rest, kinds = nm, set()
+    while True:
+        for (a, k) in LEAD_ATOMS:
+            if rest.startswith(a):
+                rest = rest[len(a):]; kinds.add(k); break
+        else:
+            break
+    if not kinds: return nm
+    if allow_abs and len(kinds) == 1:
+        # "@ROOT@" itself starts with '/', "@ROOTB@" with '\\': put the placeholder back behind the stripped lead
+        if kinds == {0} and rest.startswith(b"@ROOT@"): return nm
+        if kinds == {1} and rest.startswith(b"@ROOTB@"): return nm
+    return rest or b"x"
 
 ENCODINGS = ["ISO-8859-1", "KOI8-R", "CP1252", "SHIFT_JIS", "SHIFT_JIS", "UTF-7", "UTF-16LE", "TSCII"]
 
@@ -244,7 +275,7 @@ def fs_scenarios(ctx):
         yield scenario(one(b"lf_out"), [b"lf_out"], [], dm, "fs.corpus", note="live file link as final component is replaced")
         yield scenario(one(b"lf_out"), [b"lf_out"], ["-n"], dm, "fs.corpus")
         yield scenario(one(b"ld_dang\\x.txt"), [b"ld_dang"], [], dm, "fs.corpus")
-        yield scenario(one(b"..\\outside\\escaped.txt") + one(b"../outside/escaped2.txt") + one(b"@ROOT@/outside/abs.txt"), [], [], dm, "fs.corpus")
+        yield scenario(one(b"..\\outside\\escaped.txt") + one(b"../outside/escaped2.txt") + one(b"@ROOT@/outside/abs.txt") + one(b"\\\\@ROOTB@\\outside\\abs2.txt"), [], [], dm, "fs.corpus")
         yield scenario(one(b"\xe0\x80\xae\xe0\x80\xae\\outside\\ovl.txt", True) + one(b"\xf0\x80\x80\xae.\xe0\x80\xafoutside/ovl2.txt", True), [], [], dm, "fs.corpus")
         yield scenario(one(b"ld_in\\viain.txt") + one(b"lf_in"), [b"ld_in", b"lf_in"], ["-k"], dm, "fs.keep")
         yield scenario(one(b"+AC4ALgAv-outside+AC8-utf7.txt"), [], ["-e", "UTF-7"], dm, "fs.encoding")
@@ -269,6 +300,7 @@ def fs_scenarios(ctx):
         members = []
         for k in range(rng.randint(1, 4)):
             nm = hostile_names(rng, links, "-L" in opts) if rng.random() < 0.85 else rand_name(rng).replace(b"\n", b"_") or b"e"
+            nm = contain(nm, allow_abs="-e" not in opts)
             members.append((nm, rng.random() < 0.4, bytes(rng.choice(b"abc\n") for _ in range(rng.choice([0, 1, 7, 40])))))
         hard = rng.random() < 0.2
         if hard: members.append((rng.choice([b"hl_out", b"HL_OUT" if "-L" in opts else b"hl_out"]), False, b"over the hard link\n"))
@@ -318,11 +350,11 @@ def snap_diff(a, b, limit=4):
     ds = []
     for k in sorted(set(a) | set(b)):
         if a.get(k) != b.get(k):
-            if k not in b: ds.append(f"{k!r} removed (was {a[k][0]})")
-            elif k not in a: ds.append(f"{k!r} created ({b[k][0]}, {b[k][2]} bytes)")
+            if k not in b: ds.append(f"{short(k)!r} removed (was {a[k][0]})")
+            elif k not in a: ds.append(f"{short(k)!r} created ({b[k][0]}, {b[k][2]} bytes)")
             else:
                 what = [n for n, x, y in zip(("type", "link target", "size", "content", "mode", "mtime", "inode"), a[k], b[k]) if x != y]
-                ds.append(f"{k!r} changed ({', '.join(what)})")
+                ds.append(f"{short(k)!r} changed ({', '.join(what)})")
     return ds[:limit], len(ds)
 
 def norm_lex(path):
@@ -370,12 +402,12 @@ def san_finding(what, stderr, members):
 
 def run_fs(exe, idx, s, model_line):
     """runs one scenario; returns (findings, stats dict)"""
-    root = os.path.join(FSROOT, f"{os.getpid()}-{idx}").encode()
-    shutil.rmtree(root, ignore_errors=True)
+    jail, root = jail_of(idx), root_of(idx)
+    shutil.rmtree(jail, ignore_errors=True)
     os.makedirs(root)
     fs, st = [], {}
     try:
-        R = lambda b: b.replace(b"@ROOT@", root)
+        R = lambda b: subst(b, root)
         for e in s["pre"]:
             p = root + b"/" + e[1]
             if e[0] == "dir": os.makedirs(p, exist_ok=True)
@@ -402,7 +434,7 @@ def run_fs(exe, idx, s, model_line):
         keep = "-k" in s["opts"]
         lower = "-L" in s["opts"]
         enc = s["opts"][s["opts"].index("-e") + 1] if "-e" in s["opts"] else None
-        before_out = snapshot(root, skip=dest)
+        before_out = snapshot(jail, skip=dest)
         before_in = snapshot(dest)
         # --- listing
         rl = subprocess.run([exe.encode(), b"-l"] + opts + dargs + [cabp], cwd=cwd, capture_output=True, env=env, timeout=60)
@@ -435,6 +467,7 @@ def run_fs(exe, idx, s, model_line):
                     fs.append(Finding("mismatch", f"names printed by `cabextract -l {' '.join(s['opts'])}` differ from the model ({toks[2]}): "
                                                   f"printed {listed[k] if 0 <= k < len(listed) else listed!r} model {mnames[k] if 0 <= k < len(mnames) else mnames!r}"))
             if not skip_cmp: lex = mnames
+        names_known = not (lex is None and listed is None)     # no listing (e.g. -l crashed): the inside oracle has nothing to compare with
         if lex is None: lex = listed or []
         # name-level oracle on what the binary itself prints
         pre = (dirarg + b"/") if dirarg is not None else b""
@@ -442,7 +475,7 @@ def run_fs(exe, idx, s, model_line):
             ps = body_problems(nm[len(pre):]) if nm.startswith(pre) else ["missing directory prefix"]
             if ps:
                 fs.append(Finding("violation", f"`cabextract -l` prints the output name {nm!r}: archive-controlled part has {', '.join(ps)}")); break
-        mid_out = snapshot(root, skip=dest)
+        mid_out = snapshot(jail, skip=dest)
         if mid_out != before_out or snapshot(dest) != before_in:
             fs.append(Finding("violation", "`cabextract -l` changed the file system: " + "; ".join(snap_diff(before_out, mid_out)[0])))
         # where each lexical output path leads in the tree as it is BEFORE extraction (to name the shape of a failure)
@@ -462,16 +495,16 @@ def run_fs(exe, idx, s, model_line):
         if (b"AddressSanitizer" in rx.stderr or b"runtime error:" in rx.stderr) and not any(getattr(f, "shape", "").startswith("enc-") for f in fs):
             fs.append(san_finding("`cabextract " + " ".join(s["opts"]) + "` (extraction)", rx.stderr, members))
         if rx.returncode != 0: st["nonzero"] = 1
-        after_out = snapshot(root, skip=dest)
+        after_out = snapshot(jail, skip=dest)
         after_in = snapshot(dest)
         links_out = any(e[0] in ("link", "hard") and (b"outside" in e[2]) for e in s["pre"]) or any(e[0] == "link" and e[1].endswith(b"l_chain") for e in s["pre"])
-        desc = f"options {' '.join(s['opts']) or '(none)'}, destination mode {dm}, members {[m[0] for m in members]!r}, pre-existing links {s['links']}"
+        desc = f"options {' '.join(s['opts']) or '(none)'}, destination mode {dm}, members {[short(m[0]) for m in members]!r}, pre-existing links {s['links']}"
         if after_out != before_out and not (keep and links_out):
             ds, nd = snap_diff(before_out, after_out)
             dang = [e for e in s["pre"] if e[0] == "link"]
             text = f"cabextract changed the file system outside the destination ({nd} entries): {'; '.join(ds)} [{desc}]"
-            created = [root + b"/" + k for k in after_out if k not in before_out]
-            removed = [root + b"/" + k for k in before_out if k not in after_out]
+            created = [jail + b"/" + k for k in after_out if k not in before_out]
+            removed = [jail + b"/" + k for k in before_out if k not in after_out]
             # anything else than a directory whose mtime moved because an entry came or went
             modified = [k for k in after_out if k in before_out and after_out[k] != before_out[k] and not (after_out[k][0] == "dir" and before_out[k][:5] == after_out[k][:5])]
             dang = all(any(r["final_link"] and not r["existed"] and r["real"] == c for r in resolved) for c in created)
@@ -488,7 +521,7 @@ def run_fs(exe, idx, s, model_line):
                              "the destination with the member's basename is deleted before the symlink itself is replaced by a directory")
             f = Finding("violation", text); f.shape = kind
             fs.append(f)
-        if not keep:
+        if not keep and names_known:
             allowed = set()
             for nm in lex:
                 full = nm if dirarg is not None else nm
@@ -516,22 +549,22 @@ def run_fs(exe, idx, s, model_line):
         fs.append(Finding("violation", "cabextract did not finish within 60 s"))
     finally:
         # directories may have lost their write bit
-        for dp, dn, fn in os.walk(root):
+        for dp, dn, fn in os.walk(jail):
             try: os.chmod(dp, 0o755)
             except OSError: pass
-        shutil.rmtree(root, ignore_errors=True)
+        shutil.rmtree(jail, ignore_errors=True)
     return fs, st
 
 def model_request(s, idx):
     """the `prim outnames` line for the scenario (names as the binary sees them after -e conversion)"""
-    root = os.path.join(FSROOT, f"{os.getpid()}-{idx}").encode()
+    root = root_of(idx)
     dm = s["dmode"]
     dirarg = {"rel": b"dest", "abs": root + b"/dest", "relslash": b"dest/", "cwddot": b".", "cwd": None}[dm]
     enc = s["opts"][s["opts"].index("-e") + 1] if "-e" in s["opts"] else None
     mm = []
     s["_model_unknown"] = False
     for (nm, u, d) in s["members"]:
-        nm = nm.replace(b"@ROOT@", root)[:255]
+        nm = subst(nm, root)[:255]
         if enc and not u:
             c = to_utf8_for_e(nm, enc)
             if c is None: s["_model_unknown"] = True; c = nm
@@ -623,6 +656,8 @@ def custom_run(ctx, res, cw):
                 (viol if f.kind == "violation" else mism).append((p, meta2, f))
     try: os.rmdir(FSROOT)
     except OSError: pass
+    if mism:
+        res.notes.append("first correspondence mismatches: " + " || ".join(f.text[:300] for (_, _, f) in mism[:4]))
     # one representative per shape is enough in the report; keep the regression-corpus one first
     return dedupe(viol), mism
 
